@@ -405,6 +405,69 @@ func TestVerifC03(t *testing.T) {
 		}
 		add("off-curve-key:"+np.Class, px, py, e, ref.B32(rr), ref.B32(sI))
 	}
+	// (b6) non-canonical keys whose distance from the bound is SPARSE (x + p with x + 1 = k*2^32, 2^j ...; y + p for the
+	// tiny-y points): under the point they alias the rest of the tuple satisfies the equation
+	if als, aerr := ref.SparseAliases(); aerr != nil {
+		rep.Inconclusive("alias construction: " + aerr.Error())
+	} else {
+		for i, al := range als {
+			if !hk.Thorough() && i%3 != int(hk.Seed()%3) && al.Class[:3] == "x+p" && al.Class != "x+p:x-tiny" {
+				continue
+			}
+			sI, tt := randScalar(rng), randScalar(rng)
+			e, rr, inf := tupleFor(al.P, sI, tt)
+			if inf || rr.Sign() == 0 {
+				continue
+			}
+			add("non-canonical-key:"+al.Class, al.X, al.Y, ref.B32(e), ref.B32(rr), ref.B32(sI))
+		}
+	}
+	// (b7) valid tuples whose t = (r + s) mod n has ALIGNED ZERO WORDS or is a single bit (a recoding that steps over
+	// zero words, or loses a carry at a word boundary, only shows on such multipliers)
+	for i := 0; i < hk.N(48, 400); i++ {
+		k := kps[rng.Intn(len(kps))]
+		tt := randScalar(rng)
+		switch i % 6 {
+		case 0:
+			tt = new(big.Int).Lsh(bi(1), uint((i/6*5+int(hk.Seed()))%255))
+		case 1:
+			w := uint(i / 6 % 8)
+			tt.AndNot(tt, new(big.Int).Lsh(bi(0xffffffff), 32*w))
+		case 2:
+			w := uint(i / 6 % 4)
+			tt.AndNot(tt, new(big.Int).Lsh(new(big.Int).SetUint64(^uint64(0)), 64*w))
+		case 3:
+			tt.Rsh(tt, uint(32*(1+i/6%6)))
+			tt.Lsh(tt, uint(32*(1+i/6%6)))
+		case 4:
+			tt = new(big.Int).Sub(new(big.Int).Lsh(bi(1), uint(40+(i/6*7)%200)), bi(1)) // a long run of ones
+		default:
+			tt.SetBytes(append(rng.Bytes(4), make([]byte, 4*(1+i/6%6))...))
+		}
+		tt = ref.ModN(tt)
+		sI := randScalar(rng)
+		e, rr, inf := tupleFor(k.P, sI, tt)
+		if inf || rr.Sign() == 0 || tt.Sign() == 0 {
+			continue
+		}
+		add("valid:t-sparse-or-with-aligned-zero-words", ref.B32(k.P.X), ref.B32(k.P.Y), ref.B32(e), ref.B32(rr), ref.B32(sI))
+	}
+	// (b8) COMPENSATING lengths: the 64 bytes of a valid key (or of r || s) split at another place than the middle -
+	// each argument has the wrong length, their sum is right
+	for i := 0; i < hk.N(4, 20); i++ {
+		k := kps[3+rng.Intn(len(kps)-3)]
+		sI, tt := randScalar(rng), randScalar(rng)
+		e, rr, inf := tupleFor(k.P, sI, tt)
+		if inf || rr.Sign() == 0 {
+			continue
+		}
+		xy := append(ref.B32(k.P.X), ref.B32(k.P.Y)...)
+		rs := append(ref.B32(rr), ref.B32(sI)...)
+		for _, cut := range []int{0, 1, 16, 31, 33, 48, 63, 64} {
+			add("lengths-compensate:key", xy[:cut], xy[cut:], ref.B32(e), ref.B32(rr), ref.B32(sI))
+			add("lengths-compensate:r-s", ref.B32(k.P.X), ref.B32(k.P.Y), ref.B32(e), rs[:cut], rs[cut:])
+		}
+	}
 	// non-canonical key x0 + p for on-curve x0 anywhere in [0, 2^256 - p) (top word of the encoding FFFFFFFE or FFFFFFFF)
 	{
 		span := new(big.Int).Sub(b256, ref.SM2P)
